@@ -116,20 +116,31 @@ void run(size_t idx) {
 		if (c.mask & (1ull << t)) { relabelled += mod.types[t] + ","; mod.types[t] = "Xq" + mod.types[t]; }
 	std::string in = indep::withHeader(e.bytes, e.h, mod);
 	indep::Header hin = indep::parse(in);
-	R_caseDesc(e.name + " unknown={" + relabelled + "}");
+	R_caseDesc(e.name + " unknown={" + relabelled + "}" + (idx % 4 ? std::string(" route ") + std::to_string(idx % 4) : ""));
+	// route by which the model reaches the object that is saved (rotating): loaded into a fresh object; loaded into an object that has held
+	// another model; copy-constructed from the loaded object; assigned over an object that holds another model
+	int route = (int)(idx % 4);
+	static const char* ROUTE[] = {"", " [loaded into a used object]", " [copy-constructed]", " [assigned over a used object]"};
 	for (int mode = 0; mode < 2; mode++) {
 		bool raw = mode == 0;
 		R_eval();
-		NifFile n;
+		NifFile n0, other;
+		Rng hr(mix(g_cfg.seed, 0xC03E00 + idx));
 		R_phase("load");
-		int rc = loadNif(n, in);
+		if (route == 1) useObject(n0, hr);
+		int rc = loadNif(n0, in);
+		std::unique_ptr<NifFile> cpy;
+		if (rc == 0 && route == 2) cpy = std::make_unique<NifFile>(n0);
+		if (rc == 0 && route == 3) { useObject(other, hr); other = n0; }
+		NifFile& n = route == 2 && cpy ? *cpy : route == 3 ? other : n0;
 		std::string vclass = hin.ok ? fmt("stream%u", hin.stream) : "?";
 		if (rc != 0) { R_viol("load-rejected", vclass, e.name + fmt(": file with re-labelled types {%s} is rejected (rc=%d)", relabelled.c_str(), rc)); return; }
 		if (!n.HasUnknown()) { R_viol("has-unknown-flag", vclass, e.name + ": HasUnknown() is false although types {" + relabelled + "} are unknown"); }
 		R_phase(raw ? "save:raw" : "save:default");
 		std::string out = saveNif(n, raw);
 		indep::Header ho = indep::parse(out);
-		const char* mn = raw ? "raw" : "default";
+		std::string mns = std::string(raw ? "raw" : "default") + ROUTE[route];
+		const char* mn = mns.c_str();
 		if (!ho.ok || !ho.hasSizes || ho.blocksEnd + 8 != out.size()) { R_viol("output-unparsable", mn, e.name + " {" + relabelled + "}: output header tables do not describe the file"); continue; }
 		if (ho.numBlocks != hin.numBlocks) { R_viol("block-count", mn, e.name + fmt(" {%s}: %u blocks in, %u out", relabelled.c_str(), hin.numBlocks, ho.numBlocks)); continue; }
 		bool bad = false;
